@@ -274,7 +274,8 @@ spif_ustr_init_from_fd(spif_ustr_t self, int fd)
     for (p = self->s; ((n = read(fd, p, buff_inc)) > 0) || (errno == EINTR);) {
         self->size += n;
         self->s = (spif_charptr_t) REALLOC(self->s, self->size);
-        p += n;
+        /* The buffer may have moved; the free space is its last buff_inc bytes. */
+        p = self->s + (self->size - buff_inc);
     }
     self->len = self->size - buff_inc;
     self->size = self->len + 1;
